@@ -17,6 +17,8 @@ def edge_run(ctx, cfg, what, extra=(), tracking=True, timeout=3600):
         raise common.Inconclusive("TLC reported a problem with Network.tla on %s:\n%s" % (cfg, "\n".join(tl.out.splitlines()[-30:])))
     if s["failures"] == 0 and (s["edges"] == 0 or s["edges_with_unknown_source"]):
         raise common.Inconclusive("edge stream incomplete on %s" % cfg)
+    if s.get("drift"):
+        ctx.drift.append("%d replayed events differ from Network.tla only in requests no listed property claims (MODE/WHO after a join), e.g. %s" % (s["drift"], s["drift_example"][:200]))
     return s
 
 
